@@ -33,6 +33,13 @@ Theorem C03_default_executor :
              cache_ok draw lin parts d'.
 Proof. exact local_job. Qed.
 
+(* the cache_obj left by a pool job is, entry by entry and in dict order, the cache_obj left by the default executor *)
+Theorem C03_cache_equals_default_executor :
+  forall draw lin parts r, wf lin r -> forall driver, cache_ok draw lin parts driver ->
+  forall tf, tfun_pure tf = true -> forall b sched sh,
+  o_driver (run_job draw b today r tf parts sched driver sh) = snd (fst (run_local draw today r tf parts driver sh)).
+Proof. exact dist_cache_eq_local. Qed.
+
 (* --- the first and every later job ----------------------------------------------------------------------------------
    any history of jobs (each with its own lineage over the same registry of persisted datasets, its own task function
    and its own schedule) on one context: every job returns the sequential result, on a pool ... *)
@@ -73,7 +80,7 @@ Theorem C03_sample_sched_indep :
   forall draw lin parts s fr r tf driver, wf lin r -> tfun_pure tf = true -> cache_ok draw lin parts driver ->
   forall b sched sh,
   o_results (run_job draw b today (Sample s fr r) tf parts sched driver sh)
-  = map (fun ip => Some (apply_tfun tf (bern draw (s + Z.of_nat (fst ip)) fr (eval draw r (Z.of_nat (fst ip)) (snd ip)))))
+  = map (fun ip => Some (apply_tfun tf (samp draw (s + Z.of_nat (fst ip)) fr (eval draw r (Z.of_nat (fst ip)) (snd ip)))))
         (combine (seq 0 (length parts)) parts).
 Proof. exact sample_job. Qed.
 
@@ -103,11 +110,11 @@ Theorem C03_variant_shared_key_on_copies :
 Proof. exact shared_key_variant_copying_same_schedule. Qed.
 (* module-global random generator (before fix 62e6812): two grants suffice to change the sample *)
 Theorem C03_variant_global_rng_refuted :
-  o_results (run_job draw_by_seed InProcess old_global_rng (Sample 5 0.5 Src) FCollect two_parts [] [] shared0)
+  o_results (run_job draw_by_seed InProcess old_global_rng (Sample 5 (SBern 0.5) Src) FCollect two_parts [] [] shared0)
     = [Some [0; 1]; Some []] /\
-  o_results (run_job draw_by_seed InProcess old_global_rng (Sample 5 0.5 Src) FCollect two_parts [0; 1]%nat [] shared0)
+  o_results (run_job draw_by_seed InProcess old_global_rng (Sample 5 (SBern 0.5) Src) FCollect two_parts [0; 1]%nat [] shared0)
     = [Some []; Some []] /\
-  spec_results draw_by_seed (Sample 5 0.5 Src) FCollect two_parts = [Some [0; 1]; Some []].
+  spec_results draw_by_seed (Sample 5 (SBern 0.5) Src) FCollect two_parts = [Some [0; 1]; Some []].
 Proof. exact global_rng_variant_bad_schedule. Qed.
 (* a task function that stores its data in a container of the driver's closure (coalesce before fix 8650242): the
    container is filled in process, stays empty on copies; today's coalesce regroups the job result instead *)
@@ -120,7 +127,7 @@ Proof. exact smuggle_variant_copying. Qed.
 
 (* --- non-vacuity ---------------------------------------------------------------------------------------------------- *)
 Definition ex_lin (id : Z) : rdd :=
-  match id with 2 => Map (fun x => [x + 1]) Src | _ => Sample 3 0.5 (Persist 2 (Map (fun x => [x + 1]) Src)) end.
+  match id with 2 => Map (fun x => [x + 1]) Src | _ => Sample 3 (SBern 0.5) (Persist 2 (Map (fun x => [x + 1]) Src)) end.
 Definition ex_rdd : rdd := Map (fun x => [x * 2]) (Persist 4 (ex_lin 4)).
 Example ex_wf : wf ex_lin ex_rdd.
 Proof. simpl. repeat split. Qed.
@@ -136,4 +143,12 @@ Example ex_run :
   o_results o1 = spec_results draw_by_seed ex_rdd FCollect parts /\ o_results o2 = o_results o1 /\
   c_keys (o_driver o1) = [(2, 0); (4, 0); (2, 1); (4, 1); (2, 2); (4, 2)] /\ o_driver o2 = o_driver o1 /\
   length (o_events o1) = 60%nat /\ length (o_events o2) = 18%nat.
+Proof. vm_compute. repeat split. Qed.
+(* sampling with replacement: pysparkling_poisson on the stream 0.5, 0.5, ... with lam = 1 (exp(-1) ~ 0.3679): one copy of
+   every element (0.5 > e^-1 >= 0.25), two draws per element; a lam of 0 draws nothing *)
+Example ex_poisson :
+  samp (fun _ _ => 0.5%float) 7 (SPoisson 1 0x1.78b56362cef38p-2) [4; 5; 6] = [4; 5; 6] /\
+  samp_next (fun _ _ => 0.5%float) 7 (SPoisson 1 0x1.78b56362cef38p-2) 0 [4; 5; 6] = 6%nat /\
+  samp_next (fun _ _ => 0.5%float) 7 (SPoisson 0 1) 0 [4; 5; 6] = 0%nat /\
+  samp (fun _ _ => 0.75%float) 7 (SPoisson 1 0x1.78b56362cef38p-2) [4] = [4; 4; 4].
 Proof. vm_compute. repeat split. Qed.
